@@ -249,9 +249,9 @@ FIXED = [
      "a = 1\na += abs(h1(x1) - 9)\nmon.write(a)\nb, c = max(h2(x1), 0), 1\nmon.write(b)\nL = [min(h3(x1), 9) for t in range(2)]\nmon.write(L[1])\n", 0),
     # ... in the else branch of a conditional expression, under a unary minus, as the right operand of arithmetic, through two helpers
     ("x1 = 2.5\nn1 = 3\ndef h1(p):\n    return int(p * 2)\ndef h2(p):\n    if p > 2:\n        return 3\n    return 1\ndef h3(p):\n    return int(p * 2)\n"
-     "def h4(p):\n    return p - 1\ndef g4(p):\n    return p\n"
+     "def h4(p):\n    return p - 1\ndef g4(p):\n    return p\ndef h5(p):\n    return int(p * 2)\n"
      "d = (0 if n1 > 5 else abs(h1(x1)))\nmon.write(d)\ne = (-abs(h2(x1)))\nmon.write(e)\nf = (n1 + max(h3(x1), 1))\nmon.write(f)\n"
-     "s = (\"x\" if n1 > 5 else str(h1(n1)))\nmon.write(s)\nt = bool(g4(h4(x1) - 1))\nmon.write(t)\n", 0),
+     "s = (\"x\" if n1 > 5 else str(h5(x1)))\nmon.write(s)\nt = bool(g4(h4(x1) - 1))\nmon.write(t)\n", 0),
     ("x1 = 2.5\nn1 = 3\ndef h1(p):\n    return int(p * 2)\ndef h2(p):\n    return p > 2\nv = 0\nwhile True:\n    v = max(h1(x1), v)\n    mon.write(v)\n    t = int(bool(h2(x1)))\n    mon.write(t)\n", 1),
 ]
 
